@@ -5,13 +5,15 @@ unfix_blockname / valid_blockname / padstring translated from the AST and proved
 typed reference model) + H (coq/C13/InconIO.v: hand model of t2incon.read / write over
 Base/FixedFormat.v, run extracted against the implementation on generated objects, on their
 files, on perturbed files and on the 7 shipped files)."""
-import os, sys, math, tempfile, shutil, signal, json, glob
+import os, sys, math, tempfile, shutil, signal, json, glob, subprocess
+from concurrent.futures import ThreadPoolExecutor
 import vf
 from translate import tables, pyfun
 from props import c13_oracle as orc
 
 SHIPPED = [('AUTOUGH2/1/case1.incon', None), ('AUTOUGH2/2/case2.incon', None), ('AUTOUGH2/3/case3.incon', None),
            ('TOUGH2/1/case1.incon', None), ('TOUGH2/2/INCON', 6), ('TOUGH2/3/test.incon', None), ('TOUGHREACT/1/SAVE_1', None)]
+SHARDS = max(1, min(8, vf.NPROC))
 LAYOUTS = ['header_short', 'header_long', 'incon1', 'incon1_toughreact', 'incon2', 'timing', 'timing_toughreact']
 
 
@@ -93,6 +95,49 @@ def model_result(line):
     if line == 'OK': return ('OK', [''])
     if line.startswith('RAISE '): return ('RAISE', line[6:])
     return ('?', line)
+
+
+def _run_one(exe, lines, timeout):
+    if not lines: return []
+    p = subprocess.run(['bash', '-c', 'ulimit -s unlimited 2>/dev/null || ulimit -s $(ulimit -Hs); exec "$0"', exe],
+                       input=('\n'.join(lines) + '\n').encode('latin-1'), stdout=subprocess.PIPE, stderr=subprocess.PIPE, timeout=timeout)
+    if p.returncode != 0: raise RuntimeError('model driver failed: ' + p.stderr.decode('latin-1')[-2000:])
+    out = p.stdout.decode('latin-1').split('\n')
+    if out and out[-1] == '': out.pop()
+    if len(out) != len(lines): raise RuntimeError('model driver returned %d lines for %d cases' % (len(out), len(lines)))
+    return out
+
+
+def run_model(exe, lines, shards=None, timeout=1500):
+    """The extracted model on case lines.  Own runner (vf.run_driver is not used): the stack limit is lifted (extracted
+    stdlib list functions are not tail-recursive; whole shipped files are single cases), bytes are latin-1, and the cases
+    are dealt round-robin to `shards` processes (results re-assembled in order)."""
+    shards = max(1, min(shards or SHARDS, len(lines)))
+    if shards == 1: return _run_one(exe, lines, timeout)
+    with ThreadPoolExecutor(max_workers=shards) as ex:
+        outs = list(ex.map(lambda k: _run_one(exe, lines[k::shards], timeout), range(shards)))
+    res = [None] * len(lines)
+    for k, o in enumerate(outs): res[k::shards] = o
+    return res
+
+
+def esc(t): return t.replace('\t', '\x01').replace('\n', '\x02')
+def unesc(t): return t.replace('\x01', '\t').replace('\x02', '\n')
+
+
+def read_case(nv, check, text):
+    """model read of a file text: escaped transport (linear in the model), hex when the escape characters occur"""
+    if '\x01' in text or '\x02' in text or '\r' in text:
+        return '\t'.join(['R', nvtok(nv), '1' if check else '0', vf.hexs(text)])
+    return '\t'.join(['T', nvtok(nv), '1' if check else '0', esc(text)])
+
+
+def write_case(reset, toks): return '\t'.join(['V', '1' if reset else '0'] + toks)
+
+
+def written_text(m):
+    """('OK', text) | ('RAISE',) from a model V result"""
+    return ('OK', unesc(m[1][0])) if m[0] == 'OK' else ('RAISE',)
 
 
 def read_text(path):
@@ -177,20 +222,45 @@ def perturb(rng, text):
 
 
 # ---------------------------------------------------------------- correspondence
-def correspond(ctx, exe, n_objects, n_oracle):
+def model_chain(exe, path, nv, resets):
+    """model side of a shipped file (runs in a worker thread): model read, then model write of what it read"""
+    m = model_result(run_model(exe, [read_case(nv, True, read_text(path))], shards=1)[0])
+    ws = {}
+    if m[0] == 'OK':
+        for reset, mo in zip(resets, run_model(exe, [write_case(r, m[1]) for r in resets], shards=len(resets))):
+            ws[reset] = written_text(model_result(mo))
+    return m, ws
+
+
+def same_read(im, m):
+    return not (im[0] != m[0] or (im[0] == 'OK' and im[1] != m[1]) or (im[0] == 'RAISE' and im[1] != m[1]))
+
+
+def correspond(ctx, exe, n_objects, n_oracle, n_inst):
     rng = ctx.rng
     tmpdir = tempfile.mkdtemp(prefix='c13c_')
-    from t2incons import t2incon
+    pool = ThreadPoolExecutor(max_workers=3)
     try:
+        # shipped files: the model side of the three large ones runs in the background from the start
+        ship = []
+        for rel, nv in SHIPPED:
+            p = os.path.join(ctx.repo, 'tests', 'incon', rel)
+            if not os.path.exists(p):
+                ctx.disagreement('shipped-files', {'file': rel}, 'n/a', 'file is missing'); continue
+            big = os.path.getsize(p) > 500000
+            resets = (False,) if big else (False, True)
+            ship.append((rel, nv, p, resets, pool.submit(model_chain, exe, p, nv, resets)))
+        shards = max(1, SHARDS - 2)
         descs = [orc.gen_desc(rng, ctx.thorough) for _ in range(n_oracle)] + \
                 [gen_corr_desc(rng, ctx.thorough) for _ in range(n_objects - n_oracle)]
         f1 = os.path.join(tmpdir, 'a.incon'); f2 = os.path.join(tmpdir, 'b.incon')
         wl, rl, cl, w2l = [], [], [], []
         impl_w, impl_r, impl_w2, ptexts = [], [], [], []
-        for d in descs:
+        for k, d in enumerate(descs):
             toks = enc_obj(d['sim'], d['timing'], d['blocks'])
-            wl.append('\t'.join(['W', '1' if d['reset'] else '0'] + toks))
-            cl.append('\t'.join(['C', nvtok(d['nv']), '1' if d['check'] else '0', '1' if d['reset'] else '0'] + toks))
+            wl.append(write_case(d['reset'], toks))
+            if k < n_inst or n_oracle <= k < n_oracle + n_inst // 3:
+                cl.append((k, '\t'.join(['C', nvtok(d['nv']), '1' if d['check'] else '0', '1' if d['reset'] else '0'] + toks)))
             try:
                 orc.build(d).write(f1, reset=d['reset'])
                 text = open(f1, newline='').read()
@@ -200,7 +270,7 @@ def correspond(ctx, exe, n_objects, n_oracle):
                 continue
             r = impl_read(f1, d['nv'], d['check'])
             impl_r.append(r)
-            rl.append((len(impl_r) - 1, '\t'.join(['R', nvtok(d['nv']), '1' if d['check'] else '0', vf.hexs(read_text(f1))])))
+            rl.append((len(impl_r) - 1, read_case(d['nv'], d['check'], read_text(f1))))
             if r[0] == 'OK':
                 try:
                     r[2].write(f2, reset=d['reset'])
@@ -209,15 +279,16 @@ def correspond(ctx, exe, n_objects, n_oracle):
                     impl_w2.append(('RAISE', type(e).__name__))
             else: impl_w2.append(None)
             ptexts.append(text)
+        ctx.log('implementation: %d objects written / read / rewritten' % len(descs))
         # model writes
-        for d, mo, im in zip(descs, vf.run_driver(exe, wl), impl_w):
-            m = model_result(mo)
-            m = ('OK', bytes.fromhex(m[1][0]).decode('latin-1')) if m[0] == 'OK' else ('RAISE',)
+        for d, mo, im in zip(descs, run_model(exe, wl, shards), impl_w):
+            m = written_text(model_result(mo))
             if (m[0] == 'OK') != (im[0] == 'OK') or (m[0] == 'OK' and m[1] != im[1]):
                 ctx.disagreement('model-write-vs-t2incon.write', orc.desc_to_json(d), repr(m)[:600], repr(im)[:600])
         ctx.corr_cases('model-write-vs-t2incon.write', len(descs), implementation_raised=sum(1 for x in impl_w if x[0] != 'OK'))
+        ctx.log('model writes done')
         # model reads of the implementation's files
-        mouts = vf.run_driver(exe, [l for _, l in rl])
+        mouts = run_model(exe, [l for _, l in rl], shards)
         nread = 0
         for (idx, _), mo in zip(rl, mouts):
             d, im = descs[idx], impl_r[idx]
@@ -226,80 +297,80 @@ def correspond(ctx, exe, n_objects, n_oracle):
             if im[0] == 'HANG':
                 if not (m[0] == 'RAISE' and m[1] == 'OutOfFuel'):
                     ctx.disagreement('model-read-vs-t2incon(filename)', orc.desc_to_json(d), repr(m)[:600], 'does not terminate')
-            elif im[0] != m[0] or (im[0] == 'OK' and im[1] != m[1]) or (im[0] == 'RAISE' and im[1] != m[1]):
+            elif not same_read(im, m):
                 ctx.disagreement('model-read-vs-t2incon(filename)', orc.desc_to_json(d), repr(m)[:600], repr(im[:2])[:600])
             # second write: model write of what the model read vs implementation write of what it read
             if im[0] == 'OK' and m[0] == 'OK' and impl_w2[idx] is not None:
-                w2l.append((idx, '\t'.join(['W', '1' if d['reset'] else '0'] + m[1])))
+                w2l.append((idx, write_case(d['reset'], m[1])))
         ctx.corr_cases('model-read-vs-t2incon(filename)', nread)
-        for (idx, _), mo in zip(w2l, vf.run_driver(exe, [l for _, l in w2l])):
-            m = model_result(mo); im = impl_w2[idx]
-            m = ('OK', bytes.fromhex(m[1][0]).decode('latin-1')) if m[0] == 'OK' else ('RAISE',)
+        for (idx, _), mo in zip(w2l, run_model(exe, [l for _, l in w2l], shards)):
+            m = written_text(model_result(mo)); im = impl_w2[idx]
             if (m[0] == 'OK') != (im[0] == 'OK') or (m[0] == 'OK' and m[1] != im[1]):
                 ctx.disagreement('model-rewrite-vs-implementation-rewrite', orc.desc_to_json(descs[idx]), repr(m)[:600], repr(im)[:600])
         ctx.corr_cases('model-rewrite-vs-implementation-rewrite', len(w2l))
-        # hypotheses and theorem instances, evaluated by the extracted model on every object
-        nwf = nidh = 0
-        for d, mo in zip(descs, vf.run_driver(exe, cl)):
+        ctx.log('model reads and rewrites done')
+        # hypotheses and theorem instances, evaluated by the extracted model
+        nwf = nidh = nq = nqwf = 0
+        for (k, _), mo in zip(cl, run_model(exe, [l for _, l in cl], shards)):
+            d = descs[k]
             fl = dict(kv.split('=') for kv in mo.split(' ')) if '=' in mo else {}
             if not fl:
                 ctx.disagreement('theorem-instances(model)', orc.desc_to_json(d), mo, 'flags'); continue
+            nq += k < n_oracle
             if fl['wf'] == '1':
-                nwf += 1
+                nwf += 1; nqwf += k < n_oracle
                 if fl['rw'] != '1' or fl['fix'] != '1':
                     ctx.disagreement('theorem-instances(model)', orc.desc_to_json(d), mo, 'wf implies read(write i) = canon i and canon(canon i) = canon i')
                 if fl['idh'] == '1':
                     nidh += 1
                     if fl['idem'] != '1':
                         ctx.disagreement('theorem-instances(model)', orc.desc_to_json(d), mo, 'wf and idem hypotheses imply write(canon i) = write i')
-        ctx.corr_cases('theorem-instances(model)', len(descs), wf_met=nwf, wf_and_idem_hyps_met=nidh)
-        ctx.hyp_met['incon_read_write: wf (generated objects)'] = '%d of %d' % (nwf, len(descs))
-        ctx.hyp_met['incon_write_idem: wf and field idempotence (generated objects)'] = '%d of %d' % (nidh, len(descs))
-        if nwf * 4 < n_oracle:
-            ctx.proof_failures.append({'kind': 'finite', 'name': 'incon_read_write (hypothesis wf is met by %d of %d generated objects)' % (nwf, len(descs)),
+        ctx.corr_cases('theorem-instances(model)', len(cl), wf_met=nwf, wf_and_idem_hyps_met=nidh, within_quantifier=nq, within_quantifier_wf_met=nqwf)
+        ctx.hyp_met['incon_read_write: wf (generated objects within the property quantifier)'] = '%d of %d' % (nqwf, nq)
+        ctx.hyp_met['incon_write_idem: wf and field idempotence (all evaluated objects)'] = '%d of %d' % (nidh, len(cl))
+        if nqwf * 4 < nq:
+            ctx.proof_failures.append({'kind': 'finite', 'name': 'incon_read_write (hypothesis wf is met by %d of %d generated objects)' % (nqwf, nq),
                                        'detail': 'the theorem has become (nearly) vacuous on the objects of the property quantifier'})
+        ctx.log('theorem instances done')
         # perturbed files
         pl, pidx = [], []
         texts = [t for t in ptexts if t]
-        nper = min(len(texts), 400 if ctx.thorough else 120)
+        nper = min(len(texts), 400 if ctx.thorough else 100)
         for text in rng.sample(texts, nper):
             for _ in range(3):
                 t = perturb(rng, text)
                 nv = rng.choice([None, None, 1, 5])
                 ck = rng.random() < 0.7
-                pl.append('\t'.join(['R', nvtok(nv), '1' if ck else '0', vf.hexs(t)])); pidx.append((t, nv, ck))
-        for (t, nv, ck), mo in zip(pidx, vf.run_driver(exe, pl)):
+                pl.append(read_case(nv, ck, t)); pidx.append((t, nv, ck))
+        for (t, nv, ck), mo in zip(pidx, run_model(exe, pl, shards)):
             m = model_result(mo)
             if m[0] == 'RAISE' and m[1] == 'OutOfFuel': continue     # the code would not terminate: not run
             with open(f1, 'w', newline='') as f: f.write(t)
             im = impl_read(f1, nv, ck, limit=10)
-            if im[0] != m[0] or (im[0] == 'OK' and im[1] != m[1]) or (im[0] == 'RAISE' and im[1] != m[1]):
+            if not same_read(im, m):
                 ctx.disagreement('model-read-vs-t2incon(perturbed file)', {'text': t, 'num_variables': nv, 'check_blocknames': ck}, repr(m)[:600], repr(im[:2])[:600])
         ctx.corr_cases('model-read-vs-t2incon(perturbed file)', len(pl))
-        # shipped files
-        sl, sinfo = [], []
-        for rel, nv in SHIPPED:
-            p = os.path.join(ctx.repo, 'tests', 'incon', rel)
-            if not os.path.exists(p):
-                ctx.disagreement('shipped-files', {'file': rel}, 'n/a', 'file is missing'); continue
-            sl.append('\t'.join(['R', nvtok(nv), '1', vf.hexs(read_text(p))])); sinfo.append((rel, nv, p))
-        w3 = []
-        for (rel, nv, p), mo in zip(sinfo, vf.run_driver(exe, sl)):
-            m = model_result(mo); im = impl_read(p, nv, True, limit=120)
-            if im[0] != m[0] or (im[0] == 'OK' and im[1] != m[1]) or (im[0] == 'RAISE' and im[1] != m[1]):
+        ctx.log('perturbed files done')
+        # shipped files: implementation side, compared with the model results computed in the background
+        nship = 0
+        for rel, nv, p, resets, fut in ship:
+            im = impl_read(p, nv, True, limit=300)
+            m, ws = fut.result()
+            nship += 1
+            if not same_read(im, m):
                 k = next((i for i, (a, b) in enumerate(zip(m[1], im[1])) if a != b), -1) if im[0] == m[0] == 'OK' else -1
                 ctx.disagreement('shipped-files', {'file': rel, 'first_difference_at_token': k}, repr(m[1][k] if k >= 0 else m)[:300], repr(im[1][k] if k >= 0 else im[:2])[:300])
             elif im[0] == 'OK':
-                for reset in (False, True):
+                for reset in resets:
                     im[2].write(f2, reset=reset)
-                    w3.append((rel, reset, open(f2, newline='').read(), '\t'.join(['W', '1' if reset else '0'] + m[1])))
-        for (rel, reset, text, _), mo in zip(w3, vf.run_driver(exe, [x[3] for x in w3])):
-            m = model_result(mo)
-            if m[0] != 'OK' or bytes.fromhex(m[1][0]).decode('latin-1') != text:
-                ctx.disagreement('shipped-files', {'file': rel, 'rewrite_reset': reset}, 'model write of the model-read object differs', 'implementation write')
-        ctx.corr_cases('shipped-files', len(sinfo) + len(w3))
+                    nship += 1
+                    if ws.get(reset) != ('OK', open(f2, newline='').read()):
+                        ctx.disagreement('shipped-files', {'file': rel, 'rewrite_reset': reset}, 'model write of the model-read object differs', 'implementation write')
+        ctx.corr_cases('shipped-files', nship, files=len(ship))
+        ctx.log('shipped files done')
         return descs[:n_oracle]
     finally:
+        pool.shutdown(wait=True)
         shutil.rmtree(tmpdir, ignore_errors=True)
 
 
@@ -312,7 +383,7 @@ def correspond_strtod(ctx, exe):
     for _ in range(20000 if ctx.thorough else 3000):
         nd = rng.choice([1, 5, 10, 14, 15, 16, 17, 20])
         texts.append('%s%d.%se%d' % (rng.choice(['', '-']), rng.randint(0, 9), ''.join(rng.choice('0123456789') for _ in range(nd)), rng.choice([0, rng.randint(-30, 30), rng.randint(-330, 310)])))
-    out = vf.run_driver(exe, ['N\t' + vf.hexs(t) for t in texts])
+    out = run_model(exe, ['N\t' + vf.hexs(t) for t in texts])
     for t, mo in zip(texts, out):
         if mo != enc_num(float(t)): ctx.disagreement('strtod-model-vs-float()', {'text': t}, mo, enc_num(float(t)))
     ctx.corr_cases('strtod-model-vs-float()', len(texts))
@@ -355,6 +426,7 @@ def oracle(ctx, descs, name='write-read-write'):
 def run(ctx):
     n_oracle = 20000 if ctx.thorough else 300
     n_extra = 6000 if ctx.thorough else 150
+    n_inst = 3000 if ctx.thorough else 120      # objects on which the theorems' hypotheses and conclusions are evaluated by the model
     ctx.rule = ('initial-condition sets built through the public API: 0..12 (thorough: ..40) blocks named by mulgrid\'s own naming functions in all 4 conventions '
                 '(either justification and case, atmosphere names, 3-digit columns), 1..12 variables per block from 9 value classes (ordinary, negative, '
                 '3-digit exponents of both signs, zeros, rounding ties, carries into a longer exponent), porosity / permeabilities / nseq-nadd present or absent, '
@@ -378,7 +450,7 @@ def run(ctx):
     descs = None
     if exe:
         correspond_strtod(ctx, exe)
-        descs = correspond(ctx, exe, n_oracle + n_extra, n_oracle)
+        descs = correspond(ctx, exe, n_oracle + n_extra, n_oracle, n_inst)
     if descs is None:
         descs = [orc.gen_desc(ctx.rng, ctx.thorough) for _ in range(n_oracle)]
     oracle(ctx, known_witnesses() + descs)
